@@ -103,7 +103,8 @@ namespace BitSerializer::Convert::Detail
 			if constexpr (TDivRatio::num == 1)
 			{
 				const auto v = static_cast<TTargetRep>(static_cast<TOpRep>(duration.count()) / static_cast<TOpRep>(TDivRatio::den));
-				if (static_cast<TRep>(v * TDivRatio::den) != duration.count()) {
+				// Compare in the common type (multiplication in the target type can overflow)
+				if (static_cast<TOpRep>(v) * static_cast<TOpRep>(TDivRatio::den) != static_cast<TOpRep>(duration.count())) {
 					throw std::out_of_range("Precision of target duration is not enough");
 				}
 				return TTarget(v);
@@ -117,7 +118,8 @@ namespace BitSerializer::Convert::Detail
 				}
 
 				const auto v = static_cast<TTargetRep>(static_cast<TOpRep>(duration.count()) * static_cast<TOpRep>(TDivRatio::num) / static_cast<TOpRep>(TDivRatio::den));
-				if (v && static_cast<TRep>(v * TDivRatio::den / TDivRatio::num) != duration.count()) {
+				// Compare in the common type (multiplication in the target type can overflow)
+				if (v && static_cast<TOpRep>(v) * static_cast<TOpRep>(TDivRatio::den) / static_cast<TOpRep>(TDivRatio::num) != static_cast<TOpRep>(duration.count())) {
 					throw std::out_of_range("Precision of target duration is not enough");
 				}
 				return TTarget(v);
